@@ -378,7 +378,7 @@ Fixpoint handle_run (nc : nullchunk) (idx : index) (s : ipos) (rqs : list (store
 (* ---- concurrent requests on ONE handle ----
    indexFileHandle.read holds the handle's mutex from before the Seek until after the Read: requests that arrive on a
    handle while another one is under way (kernel read-ahead) wait, and are served one at a time in whatever order the
-   mutex admits them -- some permutation of the arrival order.  [fuse_run] takes the requests in the order in which they
+   mutex lets them in -- some permutation of the arrival order.  [fuse_run] takes the requests in the order in which they
    are served; [fuse_answer_ok] is what each answer must be whatever that order is. *)
 Definition fuse_answer_ok (blob : bytes) (store : store_t) (n : nat) (rq : nat * Z * nat) (r : option fres) : Prop :=
   let '(h, off, len) := rq in
